@@ -217,6 +217,11 @@ pub mod stdspec {
         ensures
             b ==> exists|i: int| 0 <= i < iter_seq(*old(it)).unref().len() && f.ensures((&#[trigger] iter_seq(*old(it)).unref()[i],), true),
             !b ==> forall|i: int| 0 <= i < iter_seq(*old(it)).unref().len() ==> f.ensures((&#[trigger] iter_seq(*old(it)).unref()[i],), false);
+    pub assume_specification<'a, T, F: FnMut(&'a T) -> bool> [<core::slice::Iter<'a, T> as Iterator>::all::<F>] (it: &mut core::slice::Iter<'a, T>, f: F) -> (b: bool)
+        where core::slice::Iter<'a, T>: Sized
+        ensures
+            b ==> forall|i: int| 0 <= i < iter_seq(*old(it)).unref().len() ==> f.ensures((&#[trigger] iter_seq(*old(it)).unref()[i],), true),
+            !b ==> exists|i: int| 0 <= i < iter_seq(*old(it)).unref().len() && f.ensures((&#[trigger] iter_seq(*old(it)).unref()[i],), false);
     pub assume_specification<'a, T, P: FnMut(&&'a T) -> bool> [<core::slice::Iter<'a, T> as Iterator>::find::<P>] (it: &mut core::slice::Iter<'a, T>, f: P) -> (r: Option<<core::slice::Iter<'a, T> as Iterator>::Item>)
         where core::slice::Iter<'a, T>: Sized
         ensures
